@@ -23,7 +23,7 @@ func init() {
 		Level: "model_checking",
 		Rule: "bounded-exhaustive input enumeration on the real connection loop with a logged-in observer: handshake variants (valid, each significant byte flipped, other versions, every truncation) x " +
 			"first transaction (login or any of the registered types, with/without credential fields) x (login, password) alphabets x account databases x banned/not banned x one or two appended transactions " +
-			"from the request corpus; distinct = distinct (logged-in?, bytes-received class, world-changed?) observations per family",
+			"from the request corpus; an invalid handshake sent as k + (12-k) bytes around another peer's valid handshake (k = 1..11); E-SCHED: a refused and an accepted login in flight together, a ban-list reload against connections from banned addresses; distinct = distinct (logged-in?, bytes-received class, world-changed?) observations per family",
 		Assumptions:    []string{"reference decision uses bcrypt on the harness's own account table", "credential alphabets are small (7 logins x 8 passwords); appended transactions from a 60-request corpus, at most two"},
 		Run:            runC04,
 		Replay:         replayC04,
